@@ -106,9 +106,12 @@ func (p *Program) intrinsicFor(fn *ssa.Function) (intrinsicFn, bool) {
 }
 
 var noopPrefixes = []string{
-	"log.Print", "log.Fatal", "(*log.Logger).",
-	"github.com/rulego/streamsql/logger.",
-	"(*github.com/rulego/streamsql/logger.",
+	"log.Print", "log.Fatal", "(*log.Logger).", "log.New",
+	"github.com/rulego/streamsql/logger.Debug", "github.com/rulego/streamsql/logger.Info",
+	"github.com/rulego/streamsql/logger.Warn", "github.com/rulego/streamsql/logger.Error",
+	"(*github.com/rulego/streamsql/logger.defaultLogger).Debug", "(*github.com/rulego/streamsql/logger.defaultLogger).Info",
+	"(*github.com/rulego/streamsql/logger.defaultLogger).Warn", "(*github.com/rulego/streamsql/logger.defaultLogger).Error",
+	"(*github.com/rulego/streamsql/logger.defaultLogger).log",
 }
 
 func (e *Exec) zeroResults(fn *ssa.Function) Value {
